@@ -429,32 +429,51 @@ func c29Release(c *Ctx, fIdx, fRel, fRI, fPend, fLocal, fRemote, fHHhi *typesVar
 		mainDel = "(*nebula.HostMap).unlockedDeleteHostInfo"
 		pendDel = "(*nebula.HandshakeManager).unlockedDeleteHostInfo"
 	)
-	c.g8WritersByKind("C29.release", funcs, "HostMap", fIdx, map[string]map[string]string{
+	// a private helper (x_fix4_helpers.go: unexported, same package, never a function value, every call site inside the
+	// tabled functions of that row or inside such a helper again) is a part of the tabled function that calls it
+	cg := fix4BuildCallGraph(funcs)
+	withHelpers := func(tab map[string]map[string]string) map[string]map[string]string {
+		for _, row := range tab {
+			var roots []*ssa.Function
+			for _, f := range funcs {
+				if _, ok := row[fnName(f)]; ok && f.Parent() == nil {
+					roots = append(roots, f)
+				}
+			}
+			for f := range fix4Family(c, funcs, cg, roots...) {
+				if _, ok := row[fnName(f)]; !ok {
+					row[fnName(f)] = "private helper called only from the tabled writers of this kind"
+				}
+			}
+		}
+		return tab
+	}
+	c.g8WritersByKind("C29.release", funcs, "HostMap", fIdx, withHelpers(map[string]map[string]string{
 		"map-update": {"(*nebula.HostMap).unlockedAddHostInfo": "registers a tunnel under its own index (callers tabled in C29.complete)"},
 		"map-delete": {mainDel: "removal of the owning tunnel"},
 		"store":      {mainDel: "replaces the drained map", "nebula.newHostMap": "constructor"},
-	})
-	c.g8WritersByKind("C29.release", funcs, "HandshakeManager", fPend, map[string]map[string]string{
+	}))
+	c.g8WritersByKind("C29.release", funcs, "HandshakeManager", fPend, withHelpers(map[string]map[string]string{
 		"map-update": {"(*nebula.HandshakeManager).allocateIndex": "reserves a fresh index"},
 		"map-delete": {pendDel: "removal of the owning pending tunnel"},
 		"store":      {pendDel: "replaces the drained map", "nebula.NewHandshakeManager": "constructor"},
-	})
-	c.g8WritersByKind("C29.release", funcs, "HostMap", fRel, map[string]map[string]string{
+	}))
+	c.g8WritersByKind("C29.release", funcs, "HostMap", fRel, withHelpers(map[string]map[string]string{
 		"map-update": {"nebula.AddRelay": "reserves a fresh relay index"},
 		"map-delete": {mainDel: "removal of the tunnel the relay stands on"},
 		"store":      {"nebula.newHostMap": "constructor"},
-	})
+	}))
 	c.g8WritersByKind("C29.release", funcs, "HostInfo", fLocal, map[string]map[string]string{
 		"store": {
 			"(*nebula.HandshakeManager).allocateIndex":  "the index just reserved in the pending table",
 			"(*nebula.HandshakeManager).beginHandshake": "responder: the index its machine drew from generateIndex (result.LocalIndex), checked at CheckAndComplete",
 		},
 	})
-	c.g8WritersByKind("C29.remote-owner", funcs, "HostMap", fRI, map[string]map[string]string{
+	c.g8WritersByKind("C29.remote-owner", funcs, "HostMap", fRI, withHelpers(map[string]map[string]string{
 		"map-update": {"(*nebula.HostMap).unlockedAddHostInfo": "registers the peer's index for the added tunnel"},
 		"map-delete": {mainDel: "owner-checked removal"},
 		"store":      {mainDel: "replaces the drained map", "nebula.newHostMap": "constructor"},
-	})
+	}))
 	// the responder's index is the machine's result.LocalIndex
 	if fn := c.Func(Ref{"", "HandshakeManager", "beginHandshake"}); fn != nil {
 		fRL := c.Field("handshake", "Result", "LocalIndex")
@@ -498,80 +517,111 @@ func c29Release(c *Ctx, fIdx, fRel, fRI, fPend, fLocal, fRemote, fHHhi *typesVar
 		{Ref{"", "HostMap", "unlockedDeleteHostInfo"}, fRel, "C29.release", false, true, nil},
 		{Ref{"", "HostMap", "unlockedDeleteHostInfo"}, fRI, "C29.remote-owner", false, false, fRemote},
 	} {
-		fn := c.Func(d.fnRef)
-		if fn == nil {
+		root := c.Func(d.fnRef)
+		if root == nil {
 			continue
 		}
-		hi := fn.Params[1]
 		fRS := c.Field("", "HostInfo", "relayState")
-		dels := g8Deletes(fn, d.f)
-		base := fnName(fn) + ":delete(" + d.f.Name() + ")"
-		if len(dels) == 0 {
-			c.Unknown(d.rule, base, "no delete from the map found in its delete function")
+		// the deletes are looked for in the delete function and in its private helpers; in a helper the removed tunnel is the
+		// parameter that receives it at every call site
+		fam := fix4Family(c, funcs, cg, root)
+		bind := fix4BindParam(fam, cg, root, root.Params[1])
+		type unit struct {
+			fn *ssa.Function
+			hi ssa.Value
+		}
+		var units []unit
+		nDels := 0
+		for _, g := range fix4FamilyList(funcs, fix4ReachFamily(fam, root)) {
+			touches := len(g8Deletes(g, d.f)) > 0
+			eachInstr(g, func(in ssa.Instruction) {
+				if st, ok := in.(*ssa.Store); ok {
+					if fa, ok := st.Addr.(*ssa.FieldAddr); ok && fieldOfAddr(fa) == d.f {
+						touches = true
+					}
+				}
+			})
+			if !touches && g != root {
+				continue
+			}
+			nDels += len(g8Deletes(g, d.f))
+			if bind[g] == nil {
+				c.Unknown(d.rule, fnName(g)+":delete("+d.f.Name()+")", "the private helper is not handed the removed tunnel as an argument at every call: key and ownership of its deletes are not followed")
+				continue
+			}
+			units = append(units, unit{g, bind[g]})
+		}
+		if nDels == 0 {
+			c.Unknown(d.rule, fnName(root)+":delete("+d.f.Name()+")", "no delete from the map found in its delete function")
 			continue
 		}
-		for i, del := range dels {
-			cons := fmt.Sprintf("%s#%d", base, i)
-			key := del.Call.Args[1]
-			// which key
-			okKey := false
-			if d.viaRel {
-				okKey = derivesFrom(key, sliceLocal, func(x ssa.Value) bool {
-					call, ok := x.(*ssa.Call)
-					if !ok || !matchFunc(calleeObj(call), Ref{"", "RelayState", "CopyRelayForIdxs"}) {
-						return false
-					}
-					fa, ok := callArgs(call)[0].(*ssa.FieldAddr)
-					return ok && fieldOfAddr(fa) == fRS && g8Is(hi)(fa.X)
-				})
-			} else {
-				okKey = g8FieldOf(d.keyFld, g8Is(hi))(key)
-			}
-			c.Check(okKey, d.rule, cons+":key", c.instrPos(del), "the removed tunnel's own index", "the key deleted from "+d.f.Name()+" ("+exprString(key)+") is not the index of the tunnel being removed")
-			// ownership
-			entry := g8Entry(d.f, g8Is(key))
-			lhs := entry
-			if d.pend {
-				lhs = g8FieldOf(fHHhi, func(v ssa.Value) bool {
-					return derivesFrom(v, sliceLocal, func(x ssa.Value) bool { return entry(x) })
-				})
-			} else {
-				lhs = func(v ssa.Value) bool { return derivesFrom(v, sliceLocal, func(x ssa.Value) bool { return entry(x) }) }
-			}
-			g := c.g8Lift("entry is the tunnel being removed", func(r g8Roles) Guard {
-				return gCmp("entry is the tunnel being removed", lhs, r["hi"], mustEqual)
-			}, g8Roles{"hi": g8Is(hi)})
-			rule := d.rule
-			if rule == "C29.release" {
-				rule = "C29.release-owner"
-			}
-			by, n, path := c.g8Bypass(fn, nil, Sink{Instr: del}, g)
-			if by {
-				c.Bad(rule, cons+":owner-checked", c.instrPos(del), fmt.Sprintf("delete(%s, %s) runs without testing that the entry is the tunnel being removed (%d such test(s) in the function): when this tunnel no longer owns the index (already removed once, or it lives in the other table) and the index was handed out again, the new owner's entry is released", d.f.Name(), exprString(key), n), path...)
-			} else {
-				c.OK(rule, cons+":owner-checked", fmt.Sprintf("%d test(s)", n))
-			}
-		}
-		// a drained map is replaced only when empty
-		eachInstr(fn, func(in ssa.Instruction) {
-			st, ok := in.(*ssa.Store)
-			if !ok {
-				return
-			}
-			fa, ok := st.Addr.(*ssa.FieldAddr)
-			if !ok || fieldOfAddr(fa) != d.f {
-				return
-			}
-			empty := gCmp("len(map) == 0", isLenOf(func(v ssa.Value) bool { return loadsField(v, d.f) }), isIntConst(0), func(op token.Token) (bool, bool) {
-				switch op {
-				case token.EQL:
-					return true, true
-				case token.NEQ, token.GTR:
-					return true, false
+		for _, u := range units {
+			fn, hi := u.fn, u.hi
+			dels := g8Deletes(fn, d.f)
+			base := fnName(fn) + ":delete(" + d.f.Name() + ")"
+			for i, del := range dels {
+				cons := fmt.Sprintf("%s#%d", base, i)
+				key := del.Call.Args[1]
+				// which key
+				okKey := false
+				if d.viaRel {
+					okKey = derivesFrom(key, sliceLocal, func(x ssa.Value) bool {
+						call, ok := x.(*ssa.Call)
+						if !ok || !matchFunc(calleeObj(call), Ref{"", "RelayState", "CopyRelayForIdxs"}) {
+							return false
+						}
+						fa, ok := callArgs(call)[0].(*ssa.FieldAddr)
+						return ok && fieldOfAddr(fa) == fRS && g8Is(hi)(fa.X)
+					})
+				} else {
+					okKey = g8FieldOf(d.keyFld, g8Is(hi))(key)
 				}
-				return false, false
+				c.Check(okKey, d.rule, cons+":key", c.instrPos(del), "the removed tunnel's own index", "the key deleted from "+d.f.Name()+" ("+exprString(key)+") is not the index of the tunnel being removed")
+				// ownership
+				entry := g8Entry(d.f, g8Is(key))
+				lhs := entry
+				if d.pend {
+					lhs = g8FieldOf(fHHhi, func(v ssa.Value) bool {
+						return derivesFrom(v, sliceLocal, func(x ssa.Value) bool { return entry(x) })
+					})
+				} else {
+					lhs = func(v ssa.Value) bool { return derivesFrom(v, sliceLocal, func(x ssa.Value) bool { return entry(x) }) }
+				}
+				g := c.g8Lift("entry is the tunnel being removed", func(r g8Roles) Guard {
+					return gCmp("entry is the tunnel being removed", lhs, r["hi"], mustEqual)
+				}, g8Roles{"hi": g8Is(hi)})
+				rule := d.rule
+				if rule == "C29.release" {
+					rule = "C29.release-owner"
+				}
+				by, n, path := c.g8Bypass(fn, nil, Sink{Instr: del}, g)
+				if by {
+					c.Bad(rule, cons+":owner-checked", c.instrPos(del), fmt.Sprintf("delete(%s, %s) runs without testing that the entry is the tunnel being removed (%d such test(s) in the function): when this tunnel no longer owns the index (already removed once, or it lives in the other table) and the index was handed out again, the new owner's entry is released", d.f.Name(), exprString(key), n), path...)
+				} else {
+					c.OK(rule, cons+":owner-checked", fmt.Sprintf("%d test(s)", n))
+				}
+			}
+			// a drained map is replaced only when empty
+			eachInstr(fn, func(in ssa.Instruction) {
+				st, ok := in.(*ssa.Store)
+				if !ok {
+					return
+				}
+				fa, ok := st.Addr.(*ssa.FieldAddr)
+				if !ok || fieldOfAddr(fa) != d.f {
+					return
+				}
+				empty := gCmp("len(map) == 0", isLenOf(func(v ssa.Value) bool { return loadsField(v, d.f) }), isIntConst(0), func(op token.Token) (bool, bool) {
+					switch op {
+					case token.EQL:
+						return true, true
+					case token.NEQ, token.GTR:
+						return true, false
+					}
+					return false, false
+				})
+				c.g8Require(d.rule, fn, []Sink{{Instr: st, Desc: "map replacement"}}, "replace("+d.f.Name()+")", empty)
 			})
-			c.g8Require(d.rule, fn, []Sink{{Instr: st, Desc: "map replacement"}}, "replace("+d.f.Name()+")", empty)
-		})
+		}
 	}
 }
